@@ -1,5 +1,190 @@
 import Rivaas.Proto
-/- Driver for C16 (stub: not built yet) -/
-def main : IO UInt32 := do
-  IO.eprintln "driver for C16 is not built yet"
-  return 2
+import Rivaas.Spec.RateLimit
+/-
+Driver for C16. The first token after the id is the case kind.
+
+  S <rate> <burst> <n> {key now}* => <n> {allowed remaining reset}*
+      a trace of store.Allow(key, now) calls on one InMemoryTokenBucketStore (now in 1/512 s ticks)
+  C …same tokens…
+      the same, but the last calls (same key, same now) were issued by simultaneous goroutines; the
+      harness lists their results admitted-first, highest remaining first (any serialisation of calls
+      with one timestamp yields exactly that sequence)
+  M <rate> <burst> <headers> <enforce> <callback> <n> {key now}* => <n> {allowed remaining reset  status ran limit remaining reset retry}*
+      the trace driven through WithTokenBucket (httptest); per call what the store returned and what
+      the client saw (each header `0 | 1 value`)
+  W <limit> <Wsec> <headers> <enforce> <callback> <n> {key now_ns}* <m> {G i | I i}* <k> {i j}* => <n> {i status ran limit remaining reset retry}*
+      requests through WithSlidingWindow under a schedule of GetCounts/Incr steps; `{i j}` marks
+      request j as a retry of request i after waiting its Retry-After; answers in completion order
+
+A panic of the real code is the single observation token `P`.
+-/
+namespace Rivaas.DriverC16
+open Rivaas.Proto Rivaas.RateLimit
+
+def b01 (b : Bool) : String := if b then "1" else "0"
+
+def pair {α β} (p : P α) (q : P β) : P (α × β) := do
+  let a ← p
+  let b ← q
+  pure (a, b)
+
+def pOut : P Out := do
+  let allowed ← bool
+  let remaining ← int
+  let reset ← int
+  pure { allowed, remaining, reset }
+
+def showOut (o : Out) : String := s!"{b01 o.allowed} {o.remaining} {o.reset}"
+
+def optInt : P (Option Int) := opt int
+def optNat : P (Option Nat) := opt nat
+def showOptI : Option Int → String
+  | none => "0"
+  | some n => s!"1 {n}"
+def showOptN : Option Nat → String
+  | none => "0"
+  | some n => s!"1 {n}"
+def showOptS : Option Bytes → String
+  | none => "0"
+  | some s => "1 " ++ encStr s
+
+/-! ### store traces -/
+
+structure StoreCase where
+  rate : Int
+  burst : Int
+  calls : List (Bytes × Int)
+
+def pStoreCase : P StoreCase := do
+  let rate ← int
+  let burst ← int
+  let calls ← list (pair str int)
+  pure { rate, burst, calls }
+
+def storeVerdict (id : String) (c : StoreCase) (obs : List Out) : String :=
+  let m := runStore c.rate (c.burst * 512) [] c.calls
+  let s := bucketSpecOK c.rate (c.burst * 512) c.calls obs
+  verdict id (obs == m) s "-" (s!"{m.length} " ++ " ".intercalate (m.map showOut))
+
+/-! ### token bucket middleware -/
+
+structure MwCase where
+  rate : Int
+  burst : Nat
+  cfg : MwCfg
+  calls : List (Bytes × Int)
+
+def pMwCase : P MwCase := do
+  let rate ← int
+  let burst ← nat
+  let headers ← bool
+  let enforce ← bool
+  let hasCallback ← bool
+  let calls ← list (pair str int)
+  pure { rate, burst, cfg := { burst, headers, enforce, hasCallback }, calls }
+
+def pMwObs : P MwObs := do
+  let status ← nat
+  let ran ← bool
+  let limit ← opt str
+  let remaining ← optInt
+  let reset ← optInt
+  let retryAfter ← optInt
+  pure { status, ran, limit, remaining, reset, retryAfter }
+
+def showMwObs (m : MwObs) : String :=
+  s!"{m.status} {b01 m.ran} {showOptS m.limit} {showOptI m.remaining} {showOptI m.reset} {showOptI m.retryAfter}"
+
+def mwVerdict (id : String) (c : MwCase) (obs : List (Out × MwObs)) : String :=
+  let outs := runStore c.rate ((c.burst : Int) * 512) [] c.calls
+  let limitText := (Nat.repr c.burst).toList
+  let m := outs.map fun o => (o, mwBucket c.cfg limitText o)
+  let s := bucketSpecOK c.rate ((c.burst : Int) * 512) c.calls (obs.map (·.1)) &&
+           obs.all fun om => mwSpecOK c.cfg om.1 om.2 && (if c.cfg.headers then om.2.limit == some limitText else true)
+  verdict id (obs == m) s "-"
+    (s!"{m.length} " ++ " ".intercalate (m.map fun om => showOut om.1 ++ " " ++ showMwObs om.2))
+
+/-! ### sliding window -/
+
+structure WinCase where
+  cfg : WinCfg
+  reqs : List WinReq
+  sched : List Op
+  retries : List (Nat × Nat)
+
+def pOp : P Op := do
+  let k ← tok
+  if k == "G" then Op.get <$> nat
+  else if k == "I" then Op.inc <$> nat
+  else failure
+
+def pWinCase : P WinCase := do
+  let limit ← nat
+  let W ← nat
+  let headers ← bool
+  let enforce ← bool
+  let hasCallback ← bool
+  let reqs ← list (do let key ← str; let now ← nat; pure ({ key, now } : WinReq))
+  let sched ← list pOp
+  let retries ← list (pair nat nat)
+  pure { cfg := { limit, W, headers, enforce, hasCallback }, reqs, sched, retries }
+
+def pWinObs : P (Nat × WinObs) := do
+  let i ← nat
+  let status ← nat
+  let ran ← bool
+  let limit ← opt str
+  let remaining ← optNat
+  let reset ← optNat
+  let retryAfter ← optNat
+  pure (i, { status, ran, limit, remaining, reset, retryAfter })
+
+def showWinObs (a : Nat × WinObs) : String :=
+  s!"{a.1} {a.2.status} {b01 a.2.ran} {showOptS a.2.limit} {showOptN a.2.remaining} {showOptN a.2.reset} {showOptN a.2.retryAfter}"
+
+def winLimitText (cfg : WinCfg) : Bytes := (Nat.repr cfg.limit).toList ++ ";w=".toList ++ (Nat.repr cfg.W).toList
+
+/-- the known-finding classes of the sliding window, stated on the *input*: a case that asks for a
+    retry after Retry-After (K16b, truthfulness) and a schedule that is not serial (K16b, race) -/
+def winClass (c : WinCase) : String :=
+  if !c.retries.isEmpty then "window-retry"
+  else if c.sched != serial c.reqs.length then "window-race"
+  else "-"
+
+def winVerdict (id : String) (c : WinCase) (obs : List (Nat × WinObs)) : String :=
+  let m := runWin c.cfg (winLimitText c.cfg) c.reqs c.sched
+  let s := windowBoundOK c.cfg c.reqs obs && retryOK c.reqs obs c.retries
+  verdict id (obs == m) s (winClass c) (s!"{m.length} " ++ " ".intercalate (m.map showWinObs))
+
+/-! ### dispatch -/
+
+def pObs {α} (p : P α) : P (Option α) := do
+  match ← peek with
+  | some "P" => let _ ← tok; pure none
+  | _ => some <$> p
+
+def step (line : String) : String :=
+  match splitCase line with
+  | none => "? bad-line"
+  | some (id, inp, obs) =>
+    match inp with
+    | "S" :: rest | "C" :: rest =>
+      match runP pStoreCase rest, runP (pObs (list pOut)) obs with
+      | some c, some (some o) => storeVerdict id c o
+      | some _, some none => verdict id false false "-" "P"
+      | _, _ => s!"{id} bad-case"
+    | "M" :: rest =>
+      match runP pMwCase rest, runP (pObs (list (pair pOut pMwObs))) obs with
+      | some c, some (some o) => mwVerdict id c o
+      | some _, some none => verdict id false false "-" "P"
+      | _, _ => s!"{id} bad-case"
+    | "W" :: rest =>
+      match runP pWinCase rest, runP (pObs (list pWinObs)) obs with
+      | some c, some (some o) => winVerdict id c o
+      | some _, some none => verdict id false false "-" "P"
+      | _, _ => s!"{id} bad-case"
+    | _ => s!"{id} bad-case"
+
+end Rivaas.DriverC16
+
+def main : IO UInt32 := Rivaas.Proto.driverMain Rivaas.DriverC16.step
